@@ -260,41 +260,46 @@ class TapeReaderContracts:
     class WF:
         """the ghost description of K data blocks + EOF that follow position p0 (see module docstring)"""
 
-        def __init__(self, A, n, p0, K, tag=""):
+        def __init__(self, A, n, p0, K, tag="", S=None, OFF=None, SD=None):
+            """S, OFF, SD: ghost functions (callables); by default uninterpreted arrays (the reader's contracts quantify over
+            them), the writer bridge passes the closed forms of the tool's own layout"""
             self.A, self.n, self.p0, self.K = A, n, p0, K
             self.S = z3.Array("S" + tag, z3.IntSort(), z3.IntSort())
             self.OFF = z3.Array("OFF" + tag, z3.IntSort(), z3.IntSort())
             self.SD = z3.Array("SD" + tag, z3.IntSort(), z3.IntSort())
+            self.Sf = S or (lambda j: sel(self.S, j))
+            self.OFFf = OFF or (lambda j: sel(self.OFF, j))
+            self.SDf = SD or (lambda t: sel(self.SD, t))
 
         def LN(self, j):
-            return sel(self.A, sel(self.S, j) + 3)
+            return sel(self.A, self.Sf(j) + 3)
 
         def END(self, j):
-            return sel(self.S, j) + 4 + self.LN(j) + 2
+            return self.Sf(j) + 4 + self.LN(j) + 2
 
         def PREV(self, j):
             return Ite(j == 0, self.p0, self.END(j - 1))
 
         def blockhdr(self, j):
             """instance of the precondition at block j (0 <= j <= K)"""
-            A, S = self.A, self.S
-            s = sel(S, j)
+            A = self.A
+            s = self.Sf(j)
             data = And(sel(A, s) == 0x55, sel(A, s + 1) == 0x3C, sel(A, s + 2) == 0x01, self.LN(j) >= 0, self.LN(j) <= 255,
-                       self.PREV(j) <= s, self.END(j) <= self.n, sel(self.OFF, j + 1) == sel(self.OFF, j) + self.LN(j))
+                       self.PREV(j) <= s, self.END(j) <= self.n, self.OFFf(j + 1) == self.OFFf(j) + self.LN(j))
             eof = And(sel(A, s) == 0x55, sel(A, s + 1) == 0x3C, sel(A, s + 2) == 0xFF, self.PREV(j) <= s, s + 6 <= self.n)
             return And(Implies(And(j >= 0, j < self.K), data), Implies(j == self.K, eof), Implies(And(j >= 0, j <= self.K), s >= 0))
 
         def base(self):
-            return And(self.K >= 0, self.p0 >= 0, sel(self.OFF, 0) == 0)
+            return And(self.K >= 0, self.p0 >= 0, self.OFFf(0) == 0)
 
         def filler(self, j, q):
             """instance (j, q): a byte between the previous block and block j is 00 or 55"""
-            return Implies(And(j >= 0, j <= self.K, self.PREV(j) <= q, q < sel(self.S, j)), Or(sel(self.A, q) == 0x00, sel(self.A, q) == 0x55))
+            return Implies(And(j >= 0, j <= self.K, self.PREV(j) <= q, q < self.Sf(j)), Or(sel(self.A, q) == 0x00, sel(self.A, q) == 0x55))
 
         def payload(self, j, t):
             """instance (j, t): SD is the concatenation of the payloads"""
             return Implies(And(j >= 0, j < self.K, t >= 0, t < self.LN(j)),
-                           sel(self.SD, sel(self.OFF, j) + t) == sel(self.A, sel(self.S, j) + 4 + t))
+                           self.SDf(self.OFFf(j) + t) == sel(self.A, self.Sf(j) + 4 + t))
 
     def _skip_contract(self, env, v, p, st):
         """skip_to_sequence through the contract proved in tape_reader_fns: least match at or after start, or -1 iff none"""
